@@ -75,7 +75,10 @@ fn is_acq(o: O) -> bool { matches!(o, O::Acquire | O::AcqRel | O::SeqCst) }
 fn is_rel(o: O) -> bool { matches!(o, O::Release | O::AcqRel | O::SeqCst) }
 fn loc_name(loc: usize) -> String { match loc { 0 => "v".into(), 1 => "g".into(), n => format!("c{}", n - 2) } }
 
+/// record number k; every seventh one (k % 7 == 3) has the shape of what a freshly restarted daemon
+/// publishes before chronyd has answered: as-of 0/0, void-after 1000/0, bound 0, status Unknown
 pub fn rec_cells(k: u64) -> [u64; NCELLS] {
+    if k % 7 == 3 { return [0, 0, 1000, 0, 0, k, 0]; }
     let mut c = [0u64; NCELLS];
     for i in 0..6 { c[i] = k * 8 + i as u64 + 1; }
     c[6] = k % 3;
